@@ -1,15 +1,25 @@
 """Shared machinery of the parser-level checks C01..C05 (one parse, one monitor per property)."""
+import os
+
+from vf import findings
 from vf import universe as U
+from vf import universe_b  # noqa: F401  (registers group B zones)
 from vf.prng import mix
 
-QUICK = {"Z2": 24000, "Z3": 5000, "Z4": 5000}
+GROUP_B = ("Z5",)
+
+QUICK = {"Z2": 24000, "Z3": 5000, "Z4": 5000, "Z5": 12000}
 
 
-def plan_docs(tier, seed, complete=False, quick=None, zones=("Z1", "Z2", "Z3", "Z4"), z1_all=True, limit=None):
+def plan_docs(tier, seed, complete=False, quick=None, zones=("Z1", "Z2", "Z3", "Z4", "Z5"), z1_all=True, limit=None, check=None):
     quick = quick or QUICK
     items = []
     zinfo = {}
     for z in zones:
+        if z in GROUP_B and not group_b_active(check):
+            continue
+        if z not in GROUP_B and only_group_b():
+            continue
         n = U.size(z)
         if limit and z in limit:
             n = min(n, limit[z])
@@ -21,6 +31,19 @@ def plan_docs(tier, seed, complete=False, quick=None, zones=("Z1", "Z2", "Z3", "
         zinfo[z] = {"universe": n, "run": len(idx)}
         items.extend(f"{z}:{i}" for i in idx)
     return items, zinfo
+
+
+def group_b_active(check):
+    """Group B zones take part once their baseline exists (or while it is being built: VERIF_GROUP=B)."""
+    if os.environ.get("VERIF_GROUP") == "B":
+        return True
+    if os.environ.get("VERIF_GROUP") == "A":
+        return False
+    return bool(check) and os.path.exists(findings.baseline_path(check + ".B"))
+
+
+def only_group_b():
+    return os.environ.get("VERIF_GROUP") == "B"
 
 
 def item_doc(item):
